@@ -10,8 +10,8 @@
      the same loops: Heap/HeapFun.v), so the element returned / the time peeked is minimal among those transferred.
    The compare-and-swap retry loop, the LIFO list and the real comparator are tied by the exact schedule replay of the
    check; minimality under a comparator that changes while elements are queued is modelled and replayed, not proved. *)
-From Coq Require Import List Arith Permutation.
-From RS Require Import Heap.HeapList Heap.HeapListProofs Heap.HeapFun.
+From Coq Require Import List Arith NArith Permutation.
+From RS Require Import Heap.HeapList Heap.HeapListProofs Heap.HeapFun Heap.HeapTime.
 
 Theorem C15_heap_insert_keeps_multiset : forall A d cmp l e, Permutation (HeapList.heap_insert A d cmp l e) (e :: l).
 Proof. exact heap_insert_perm. Qed.
@@ -32,7 +32,26 @@ Theorem C15_heap_root_minimal : forall (A : Type) (cmp : A -> A -> bool),
   forall f n, HeapFun.heap_ok A cmp f n -> forall k, k < n -> cmp (f k) (f 0) = false.
 Proof. exact heap_root_min. Qed.
 
+(* The queue comparator reads the LIVE flag word of the queued messages, so it changes while they are queued.  Whatever a comparator
+   does on ties, if it agrees with a fixed key (the timestamp: "a before b" implies key a <= key b, and key a < key b implies
+   "a before b"), the array model of the heap.h loops keeps the array a heap FOR THE KEY; each call may use a different such
+   comparator.  Hence the root always carries a smallest timestamp: what extraction and msg_queue_time_peek (GVT) rely on. *)
+Theorem C15_insert_keeps_the_timestamp_heap_under_any_compatible_comparator : forall A d (key : A -> N) cmp l e,
+  compat A key cmp -> theap A d key l -> theap A d key (HeapList.heap_insert A d cmp l e).
+Proof. exact heap_insert_theap. Qed.
+
+Theorem C15_extract_keeps_the_timestamp_heap_under_any_compatible_comparator : forall A d (key : A -> N) cmp l r l',
+  compat A key cmp -> theap A d key l -> HeapList.heap_extract A d cmp l = Some (r, l') -> theap A d key l'.
+Proof. exact heap_extract_theap. Qed.
+
+Theorem C15_root_carries_a_smallest_timestamp : forall A d (key : A -> N) l,
+  theap A d key l -> forall k, k < length l -> (key (nth 0 l d) <= key (nth k l d))%N.
+Proof. exact theap_root_min. Qed.
+
 Print Assumptions C15_heap_insert_keeps_multiset.
+Print Assumptions C15_insert_keeps_the_timestamp_heap_under_any_compatible_comparator.
+Print Assumptions C15_extract_keeps_the_timestamp_heap_under_any_compatible_comparator.
+Print Assumptions C15_root_carries_a_smallest_timestamp.
 Print Assumptions C15_heap_extract_keeps_multiset.
 Print Assumptions C15_no_loss_no_duplication.
 Print Assumptions C15_exchange_takes_everything.
